@@ -807,7 +807,7 @@ def run(ctx):
     # per-call or per-block limit of the release path has to keep up with that many messages
     for dbs, cont, nblk in ((65536, "plain", 1.5), (65536, "gz", 1.5), (262144, "plain", 0.4)) + (() if quick else ((65536, "bz2", 1.5), (131072, "gz", 0.8))):
         if cont in containers:
-            configs.append(dict(kind="dense", bs=dbs, container=cont, avoid_edges=True, base=gen_base(rng, "dense", dbs, int(nblk * dbs / 23.5))))
+            configs.append(dict(kind="dense", bs=dbs, container=cont, avoid_edges=True, base=gen_base(rng, "dense", dbs, int(nblk * dbs / 23.5 / (1 if quick else 4)))))
 
     jobs = []
     for ci, cf in enumerate(configs):
